@@ -58,7 +58,7 @@ def run(ctx):
     M = PoolModel(P, cg)
     # "a host with a single-address reservation gets that address": whether the reserving policy applies at all is
     # decided by the policy walk, whose rules belong to C11
-    ctx.include("C11", rules=("anchor", "R2", "R3"))
+    ctx.include("C11", rules=("anchor", "R2", "R3", "R6"))
     # ---------------- R1: host range bounds
     n = 0
     for b, bb, idx, s in list(find_aggs(P, "std::ops::Range")) + list(find_aggs(P, "std::ops::RangeInclusive")):
@@ -362,9 +362,17 @@ def _r3(ctx, cg):
                             args = [norm(x) for x in Tc.call_args(b2)]
                             # a captured variable is looked at in the vocabulary of the function that created the closure
                             args = args + [lift(P, cbod, x)[1] for x in args]
-                            if any(any(y[0] == "field" and y[2] == "serverip" for y in subterms(a)) for a in args) and n2.endswith("::ne") and t2["dest"] == (0,):
+                            def is_receiving(a):
+                                # the receiving address itself (request.serverip), not something computed from it and from what the
+                                # client says: `get_serverid().unwrap_or(request.serverip)` is the client's word when it gives one
+                                a = norm(a)
+                                while a[0] in ("ref", "deref"):
+                                    a = norm(a[1])
+                                return a[0] == "field" and a[2] == "serverip"
+                            if any(is_receiving(a) for a in args) and n2.endswith("::ne") and t2["dest"] == (0,):
                                 good = True
-            ctx.check(good, "R3", "default-policy-filters-own-address", ctx.where(b, s["sp"]), "the default pool must not contain the receiving address")
+            ctx.check(good, "R3", "default-policy-filters-own-address", ctx.where(b, s["sp"]),
+                      "the default pool must not contain the receiving address: the filter compares with request.serverip itself")
     ctx.floor("R3", "default policy address sets", n, 1)
     # (c) used addresses = own ∪ children, recursively
     n = 0
